@@ -13,6 +13,16 @@ from .scope import all_small, assign_roles, corpus, decorate, mk, random_renamin
 KINDS = ("MG", "SMG", "CRG", "SCRG")
 
 
+def unambiguous(ref):
+    """no two descriptors of the graph range over the same atoms (then 'the descriptor is preserved' has one
+    meaning even for unspecified parities, which compare by atom set only)"""
+    ds = list(ref.atom_stereo.values()) + list(ref.bond_stereo.values())
+    for v in list(ref.atom_changes.values()) + list(ref.bond_changes.values()):
+        ds += list(v.values())
+    keys = [tuple(sorted(map(repr, d[1]))) for d in ds]
+    return len(set(keys)) == len(keys)
+
+
 def enum_real(ga, gb, labels, stereo, stereo_change):
     from stereomolgraph.algorithms.isomorphism import vf2pp_all_isomorphisms
 
@@ -67,7 +77,7 @@ def run_c05(rep, tier, seed):
     for kind in KINDS:
         st, sc = kind in ("SMG", "SCRG"), kind == "SCRG"
         G = {n: Group(rep, f"C05/bounded/{kind}/{n}") for n in
-             ("automorphisms", "renamed-copy", "overlapping-identifier-sets", "caller-labels", "unrelated-pairs", "without-stereo-flags")}
+             ("automorphisms", "renamed-copy", "some-parities-unspecified-on-one-side", "overlapping-identifier-sets", "caller-labels", "unrelated-pairs", "without-stereo-flags")}
         items = corpus(kind, seed)
         for name, ref in items:
             if len(ref.atoms) > 8:
@@ -75,7 +85,8 @@ def run_c05(rep, tier, seed):
             distinct += 1
             # descriptor-preserving enumeration is only demanded for fully specified parities: a descriptor
             # with unspecified parity equals every descriptor over the same atoms (C04), so 'preserved' is ambiguous
-            st, sc = (kind in ("SMG", "SCRG") and ref.fully_specified()), (kind == "SCRG" and ref.fully_specified())
+            fs = ref.fully_specified() or unambiguous(ref)
+            st, sc = (kind in ("SMG", "SCRG") and fs), (kind == "SCRG" and fs)
             ok, why = c05_case(ref, ref, None, st, sc)
             G["automorphisms"].case(ok, f"{name}: {why} {ref.describe()}", c05_body(ref, ref, None, st, sc), sample={"graph": name})
             if not ref.atoms:
@@ -85,6 +96,18 @@ def run_c05(rep, tier, seed):
             o = rng.randrange(10**6)
             ok, why = c05_case(ref, rb, None, st, sc, None, o)
             G["renamed-copy"].case(ok, f"{name}: {why} {ref.describe()} vs {rb.describe()}", c05_body(ref, rb, None, st, sc, None, o))
+            if st and unambiguous(ref) and (ref.atom_stereo or ref.bond_stereo):
+                # the same graph with some parities erased: an unspecified descriptor equals every descriptor over the same atoms
+                re_ = rb.copy()
+                for kk in list(re_.atom_stereo)[:1]:
+                    dd = re_.atom_stereo[kk]
+                    re_.atom_stereo[kk] = (dd[0], dd[1], None)
+                for kk in list(re_.bond_stereo)[:1]:
+                    dd = re_.bond_stereo[kk]
+                    re_.bond_stereo[kk] = (dd[0], dd[1], None)
+                for x, y in ((ref, re_), (re_, ref)):
+                    ok, why = c05_case(x, y, None, st, sc)
+                    G["some-parities-unspecified-on-one-side"].case(ok, f"{name}: {why} {x.describe()} vs {y.describe()}", c05_body(x, y, None, st, sc))
             # the two identifier sets overlap but are shifted (u of g1 is also an atom of g2)
             atoms = list(ref.atoms)
             sh = dict(zip(atoms, atoms[1:] + atoms[:1]))
